@@ -18,7 +18,9 @@ RULE = ("(a) exhaustive: every composition of an N-day run into positive step co
         "generated histories of run_model(num_steps=k, initialize_model=False) calls, k in 1..400 incl. overshooting, interleaved "
         "with calls of all public getters. After every call: the model must report itself unfinished and return no summary until "
         "the reference's last step, and the rows written so far must equal the reference rows; at the end all tables, the summary "
-        "and the completion status must equal run_model(till_termination=True) on a fresh twin. One evaluation per history. "
+        "and the completion status must equal run_model(till_termination=True) on a fresh twin. (c) the same property as a "
+        "Hypothesis RuleBasedStateMachine (rules step_small / step_medium / step_large / query_getters, the comparison with the "
+        "reference run as @invariant after every step; 48 machine runs in quick, 800 in thorough). One evaluation per history. "
         "Non-trivial history: >=3 calls and (crosses a season boundary or overshoots the end); distinct = (configuration, history).")
 ASSUMPTIONS = [
     "rows not yet written are recognised as all-zero rows of the pre-allocated output arrays",
@@ -254,3 +256,142 @@ def simplifications(case):
             yield dict(cfg=case["cfg"], ops=ops[:i] + [max(1, k // 2)] + ops[i + 1:])
     for c in cfg_simplifications(case["cfg"]):
         yield dict(cfg=c, ops=ops)
+
+
+# ------------------------------------------------------------------------------------------------
+# (c) the same property as a Hypothesis rule-based state machine (stateful mode): rules are the API
+#     operations, the invariant runs after every step, one machine run is one history
+# ------------------------------------------------------------------------------------------------
+MACHINE_BUDGET = {"quick": 48, "thorough": 800}
+
+
+def machine(tier, record):
+    """Return a RuleBasedStateMachine class; `record(case, result)` receives one Result per finished history."""
+    from hypothesis import strategies as st
+    from hypothesis.stateful import RuleBasedStateMachine, initialize, invariant, precondition, rule
+
+    class StepwiseEqualsUninterrupted(RuleBasedStateMachine):
+        def __init__(self):
+            super().__init__()
+            self.cfg = None
+            self.res = Result()
+            self.m = None
+            self.ref = None
+            self.ops = []
+            self.calls = 0
+            self.written = 0
+            self.done = False
+            self.crossed = self.over = False
+            self.seasons = set()
+            self.dead = False   # history abandoned (rejected configuration or a recorded failure)
+
+        @initialize(cfg=gen.configs(PROFILE))
+        def build(self, cfg):
+            self.cfg = cfg
+            self.res.sample = {"cfg": describe(cfg), "hash": cfg_hash(cfg), "mode": "state machine"}
+            try:
+                self.ref = reference(cfg)
+            except Exception as e:
+                lab = classify_rejection(e)
+                self.res.outcome = "rejected" if lab else ("known" if is_F16c(e) else "crash")
+                if is_F16c(e):
+                    self.res.exclude("F16c")
+                self.res.labels.add("rejected:" + lab if lab else crash_bucket(e))
+                self.dead = True
+                return
+            self.m = make_model(cfg)
+            with init_guard():
+                self.m._initialize()
+
+        def _step(self, k):
+            if self.dead or self.done:
+                return
+            self.ops.append(k)
+            m = self.m
+            (rf, rs, rg, rsm), _ = self.ref
+            try:
+                m.run_model(num_steps=k, initialize_model=False)
+            except Exception as e:
+                self.res.fail("stepwise_raises", "history %s raises %s: %s" % (self.ops[-12:], type(e).__name__, str(e)[:120]))
+                self.dead = True
+                return
+            self.calls += 1
+            self.done = bool(m._clock_struct.model_is_finished)
+            a = _table(m.get_water_flux())
+            mask = (a != 0).any(axis=1)
+            nw = int(mask.sum())
+            if nw - self.written > k or (not self.done and nw - self.written != k):
+                self.res.fail("wrong_number_of_steps", "call %d with num_steps=%d advanced %d days (finished=%s)" % (self.calls, k, nw - self.written, self.done))
+                self.dead = True
+                return
+            if self.done and nw - self.written < k:
+                self.over = True
+            self.written = nw
+            s = set(np.unique(a[mask][:, 1]).astype(int).tolist())
+            if self.seasons and len(s | self.seasons) > len(self.seasons):
+                self.crossed = True
+            self.seasons |= s
+
+        @rule(k=st.integers(1, 5))
+        def step_small(self, k):
+            self._step(k)
+
+        @rule(k=st.integers(6, 80))
+        def step_medium(self, k):
+            self._step(k)
+
+        @rule(k=st.integers(81, 400))
+        def step_large(self, k):
+            self._step(k)
+
+        @precondition(lambda self: self.calls > 0 and not self.dead)
+        @rule()
+        def query_getters(self):
+            m = self.m
+            m.get_water_flux(); m.get_water_storage(); m.get_crop_growth(); m.get_additional_information(); m.get_simulation_results()
+            self.ops.append(0)
+
+        @invariant()
+        def agrees_with_uninterrupted_run(self):
+            if self.dead or self.m is None or self.calls == 0:
+                return
+            m = self.m
+            (rf, rs, rg, rsm), _ = self.ref
+            for name, tab, reft in (("water_flux", _table(m.get_water_flux()), rf), ("water_storage", _table(m.get_water_storage()), rs),
+                                    ("crop_growth", _table(m.get_crop_growth()), rg)):
+                mask = (tab != 0).any(axis=1)
+                if tab.shape != reft.shape or not np.array_equal(tab[mask], reft[mask], equal_nan=True):
+                    self.res.fail("prefix_differs", "after history %s: %s rows differ from the uninterrupted run" % (self.ops[-12:], name))
+                    self.dead = True
+                    return
+            info = m.get_additional_information()
+            if not self.done:
+                if info["has_model_finished"] is not False or m.get_simulation_results() is not False:
+                    self.res.fail("finished_too_early", "after history %s: model reports finished=%r / returns a summary before termination" % (self.ops[-12:], info["has_model_finished"]))
+                    self.dead = True
+            else:
+                d = compare_outputs(outputs_of(m), (rf, rs, rg, rsm))
+                if d:
+                    self.res.fail("final_differs", "history %s: final outputs differ from the uninterrupted run: %s" % (self.ops[-12:], d))
+                    self.dead = True
+                elif info["has_model_finished"] is not True or m.get_simulation_results() is False:
+                    self.res.fail("not_finished_at_end", "history %s reached termination but the model does not report it" % (self.ops[-12:],))
+                    self.dead = True
+
+        def teardown(self):
+            if self.cfg is None:
+                return
+            res = self.res
+            res.sample["ops"] = self.ops[:20]
+            res.labels.add("state_machine")
+            if self.crossed:
+                res.labels.add("crosses_season_boundary")
+            if self.over:
+                res.labels.add("overshoots_end")
+            res.keys = set()
+            if self.calls >= 3 and (self.crossed or self.over):
+                res.keys.add("%s/sm/%s" % (res.sample["hash"], "-".join(map(str, self.ops))))
+            res.nontrivial = bool(res.keys)
+            record(dict(cfg=self.cfg, ops=[k for k in self.ops] or [1]), res)
+
+    return StepwiseEqualsUninterrupted
